@@ -1038,6 +1038,15 @@ class QuantityMeta(ClassWithDefinitionMeta):
         cls = super().__new__(mcs, name, bases, clsdict,
                               define_as=define_as)
         assert isinstance(cls, QuantityMeta)
+        if define_as is not None:
+            # reject an already taken dimension before a unit gets registered
+            try:
+                reg_cls = QuantityMeta._registry[define_as]
+            except KeyError:
+                pass
+            else:
+                raise ValueError("Item with same or equivalent definition "
+                                 f"already registered: '{reg_cls}'.")
         # map of units associated with Quantity class (must not be inherited)
         cls._unit_map = {}
         if ref_unit_symbol:
